@@ -422,4 +422,149 @@ func genC02(cs *CaseSet, rng *Rng, tier string, dir string) {
 		cs.Add(Case{Kind: "upload-" + u.kind, Ops: []Op{mkOp(4, "upload", u.stream[:len(u.stream)-len(u.data)-len(u.trailer)], scriptBytes(u.script), u.data, u.trailer)},
 			Obs: [][][]byte{{{complete}, fin, inc}}, NonTrivial: len(u.script) >= 2})
 	}
+
+	// ---- folder uploads under segmentation: the whole client side of a folder upload into a fresh target (item
+	// headers, size words, flattened files) written ahead with a scripted segmentation; the server's action
+	// replies are drained.  Every file item is followed by another item, so that a read can return the tail of one
+	// file together with the next header.
+	nFold := 12
+	if tier == "thorough" {
+		nFold = 90
+	}
+	type fItem struct {
+		path  [][]byte
+		isDir bool
+		data  []byte
+	}
+	type foldJob struct {
+		name   string
+		stream []byte
+		script []int
+		kind   string
+		items  []fItem
+	}
+	env.StartDrain()
+	var folds []foldJob
+	for k := 0; k < nFold; k++ {
+		name := fmt.Sprintf("fold%d", k)
+		var items []fItem
+		items = append(items, fItem{path: [][]byte{[]byte("sub")}, isDir: true})
+		nFiles := 2 + rng.Intn(3)
+		for i := 0; i < nFiles; i++ {
+			pth := [][]byte{[]byte(fmt.Sprintf("f%d.bin", i))}
+			if i%2 == 1 {
+				pth = [][]byte{[]byte("sub"), []byte(fmt.Sprintf("g%d", i))}
+			}
+			items = append(items, fItem{path: pth, data: dataBytes(rng, rng.Pick(0, 1, 30, 511, 2000, 5000, 9000))})
+		}
+		if rng.Bool() {
+			items = append(items, fItem{path: [][]byte{[]byte("last dir")}, isDir: true})
+		}
+		total := 0
+		for _, it := range items {
+			total += len(it.data)
+		}
+		t := hotline.NewTransaction(hotline.TranUploadFldr, admin.ID, hotline.NewField(hotline.FieldFileName, []byte(name)),
+			hotline.NewField(hotline.FieldTransferSize, be32(total)), hotline.NewField(hotline.FieldFolderItemCount, be16(len(items))))
+		res, _ := callHandler(mobius.HandleUploadFolder, admin, &t)
+		if len(res) != 1 || isErrReply(res) {
+			panic("folder upload request refused")
+		}
+		stream := c10Preamble(res[0].GetField(hotline.FieldRefNum).Data)
+		for _, it := range items {
+			pathBytes := encodePath(it.path)[2:]
+			hd := be16(len(pathBytes) + 4)
+			if it.isDir {
+				hd = append(hd, 0, 1)
+			} else {
+				hd = append(hd, 0, 0)
+			}
+			hd = append(hd, be16(len(it.path))...)
+			hd = append(hd, pathBytes...)
+			stream = append(stream, hd...)
+			if !it.isDir {
+				ffo := c10FFO(string(it.path[len(it.path)-1]), it.data)
+				stream = append(stream, be32(len(ffo))...)
+				stream = append(stream, ffo...)
+			}
+		}
+		scs := segScripts(rng, len(stream), 0)
+		names := []string{"all-at-once", "random", "two-halves", "one-byte", "header-split"}
+		kind := names[k%len(names)]
+		sc := scs[kind]
+		if kind == "one-byte" && len(stream) > 4000 {
+			sc = append(sc[:300:300], len(stream)-300)
+		}
+		folds = append(folds, foldJob{name: name, stream: stream, script: sc, kind: kind, items: items})
+	}
+	env.StopDrain()
+	var wg3 sync.WaitGroup
+	for i := range folds {
+		wg3.Add(1)
+		go func(u *foldJob) {
+			defer wg3.Done()
+			cl, sv := net.Pipe()
+			done := make(chan struct{})
+			go func() {
+				env.Srv.VerifHandleFileTransfer(context.Background(), sv, "10.3.0.1:3")
+				sv.Close()
+				close(done)
+			}()
+			go io.Copy(io.Discard, cl)
+			b := u.stream
+			cl.SetWriteDeadline(time.Now().Add(10 * time.Second))
+			for _, k := range u.script {
+				if k > len(b) {
+					k = len(b)
+				}
+				if k == 0 {
+					continue
+				}
+				if _, err := cl.Write(b[:k]); err != nil {
+					break
+				}
+				b = b[k:]
+			}
+			if len(b) > 0 {
+				cl.Write(b)
+			}
+			select {
+			case <-done:
+			case <-time.After(8 * time.Second):
+			}
+			cl.Close()
+		}(&folds[i])
+	}
+	wg3.Wait()
+	for _, u := range folds {
+		root := filepath.Join(env.FileRoot, u.name)
+		args := [][]byte{u.stream, scriptBytes(u.script), be16(len(u.items))}
+		obs := [][]byte{{1}}
+		for _, it := range u.items {
+			pathBytes := encodePath(it.path)[2:]
+			d := byte(0)
+			if it.isDir {
+				d = 1
+			}
+			want := append(append(len16(pathBytes), d), it.data...)
+			args = append(args, want)
+			// what is on disk under the item's path
+			comps := make([]string, len(it.path))
+			for i, c := range it.path {
+				comps[i] = string(c)
+			}
+			full := filepath.Join(append([]string{root}, comps...)...)
+			got := append(len16(pathBytes), d)
+			if fi, err := os.Stat(full); err != nil || fi.IsDir() != it.isDir {
+				got = append(got, []byte("<missing>")...)
+				obs[0] = []byte{0}
+			} else if !it.isDir {
+				b, _ := os.ReadFile(full)
+				got = append(got, b...)
+			}
+			obs = append(obs, got)
+		}
+		cs.Add(Case{Kind: "folder-upload-" + u.kind, Ops: []Op{mkOp(5, "folder-upload", args...)},
+			Obs: [][][]byte{obs}, NonTrivial: len(u.script) >= 2})
+	}
 }
